@@ -536,7 +536,10 @@ func (rt resultGrouped) Extract(cw containerWriter, decorated bool, v reflect.Va
 	}
 
 	if decorated {
-		cw.submitDecoratedGroupedValue(rt.Group, rt.Type, v)
+		// A value group is identified by its element type: the decorated
+		// slice is stored under it so that every consumer of the group
+		// finds it, whatever slice type it or the decorator declares.
+		cw.submitDecoratedGroupedValue(rt.Group, rt.Type.Elem(), v)
 		return
 	}
 	for i := 0; i < v.Len(); i++ {
